@@ -17,6 +17,7 @@ import functools
 import hashlib
 import inspect
 from collections import namedtuple
+from threading import RLock
 from typing import Callable, Dict, Any, Tuple, List, Union, Optional, Set, cast
 
 from .configuration import Environment, ENVIRONMENT_HASH_BYTES
@@ -93,6 +94,13 @@ class MementoFunction(MementoFunctionBase):
     """
     Cache that maps from function name to a version cache entry that contains the
     generation number as of when this was current and the function version number.
+    """
+
+    _version_lock = RLock()
+    """
+    Serializes version computation. The generation number, the version cache and the
+    version / function reference pair of an instance are shared by all calling threads; a
+    thread must not observe a new version next to the function reference of the old one.
     """
 
     fn = None  # type: Callable
@@ -426,7 +434,10 @@ class MementoFunction(MementoFunctionBase):
 
     def _update_dependencies(self):
         """Assemble dependencies and update the version and fn_reference"""
+        with MementoFunction._version_lock:
+            self._update_dependencies_locked()
 
+    def _update_dependencies_locked(self):
         # If version is explicitly specified, function reference is static.
         if self.explicit_version is not None:
             if self._fn_reference is None:
